@@ -331,7 +331,7 @@ theorem isWrapChain_snoc (S : Schema) (d : Dfa) (q : Nat) (t tgt w : TypeId) (s 
 def WrapInv (S : Schema) (d : Dfa) (q : Nat) (a : Active) : Prop :=
   (a.root = true → a.chain = []) ∧
   (a.root = false → a.state = 0 ∧ a.chain.getLast? = some a.dfaOf) ∧
-  ∀ tgt, ((if a.root = true then d else S.dfa a.dfaOf).matchType a.state tgt).isSome = true →
+  ∀ tgt, ((a.dfa S d).matchType a.state tgt).isSome = true →
     isWrapChain S d q tgt a.chain = true
 
 theorem foldl_inv {α β : Type} (P : β → Prop) (f : β → α → β) :
@@ -345,24 +345,44 @@ theorem foldl_inv {α β : Type} (P : β → Prop) (f : β → α → β) :
 theorem wrapInv_extend (S : Schema) (d : Dfa) (q : Nat)
     (hdet : ∀ w, (((S.dfa w).edgesOf 0).map (·.1)).Nodup)
     (cur : Active) (hcur : WrapInv S d q cur) (t : TypeId) (s : Nat)
-    (he : (t, s) ∈ (if cur.root = true then d else S.dfa cur.dfaOf).edgesOf cur.state)
+    (he : (t, s) ∈ (cur.dfa S d).edgesOf cur.state)
     (hok : S.wrapOk t = true)
-    (hv : (cur.root || (if cur.root = true then d else S.dfa cur.dfaOf).validEnd s) = true) :
+    (hv : (cur.root || (cur.dfa S d).validEnd s) = true) :
     WrapInv S d q { dfaOf := t, state := 0, chain := cur.chain ++ [t], root := false } := by
   obtain ⟨h1, h2, h3⟩ := hcur
   have hct := h3 t (Dfa.matchType_isSome_of_mem he)
   refine ⟨by simp, fun _ => ⟨rfl, by simp⟩, ?_⟩
   intro tgt htgt
-  simp only [Bool.false_eq_true, if_false] at htgt
+  simp only [Active.dfa, Bool.false_eq_true, if_false] at htgt
   cases hr : cur.root
   · obtain ⟨hs0, hlast⟩ := h2 hr
-    simp only [hr, Bool.false_eq_true, if_false, Bool.false_or, hs0] at he hv
+    simp only [Active.dfa, hr, Bool.false_eq_true, if_false, Bool.false_or, hs0] at he hv
     exact isWrapChain_snoc S d q t tgt cur.dfaOf s cur.chain hlast hct
       (Dfa.matchType_of_mem_nodup (hdet _) he) hv hok htgt
   · have hnil := h1 hr
     rw [hnil] at hct ⊢
     simp only [isWrapChain, List.all_nil, Bool.true_and] at hct
     simp [isWrapChain, chainInner, hok, hct, htgt]
+
+theorem wrapExpand_inv (S : Schema) (d : Dfa) (q : Nat)
+    (hdet : ∀ w, (((S.dfa w).edgesOf 0).map (·.1)).Nodup)
+    (cur : Active) (hcur : WrapInv S d q cur) :
+    ∀ (es : List (TypeId × Nat)) (seen : List TypeId),
+      (∀ e, e ∈ es → e ∈ (cur.dfa S d).edgesOf cur.state) →
+      ∀ a, a ∈ (wrapExpand S (cur.dfa S d) cur es seen).1 → WrapInv S d q a
+  | [], _, _, a, ha => by simp [wrapExpand] at ha
+  | (t, s) :: es, seen, hes, a, ha => by
+    rw [wrapExpand] at ha
+    have hes' : ∀ e, e ∈ es → e ∈ (cur.dfa S d).edgesOf cur.state :=
+      fun e he => hes e (List.mem_cons_of_mem _ he)
+    split at ha
+    · rename_i hc
+      simp only [Bool.and_eq_true] at hc
+      rcases List.mem_cons.1 ha with ha | ha
+      · subst ha
+        exact wrapInv_extend S d q hdet cur hcur t s (hes (t, s) (by simp)) hc.1.1 hc.2
+      · exact wrapExpand_inv S d q hdet cur hcur es _ hes' a ha
+    · exact wrapExpand_inv S d q hdet cur hcur es _ hes' a ha
 
 theorem wrapSearch_sound (S : Schema) (d : Dfa) (q : Nat) (target : TypeId)
     (hdet : ∀ w, (((S.dfa w).edgesOf 0).map (·.1)).Nodup) :
@@ -373,7 +393,7 @@ theorem wrapSearch_sound (S : Schema) (d : Dfa) (q : Nat) (target : TypeId)
   | _ + 1, [], _, _, _, h => by simp [wrapSearch] at h
   | fuel + 1, cur :: queue, seen, chain, hq, h => by
     rw [wrapSearch.eq_3] at h
-    by_cases hm : ((if cur.root = true then d else S.dfa cur.dfaOf).matchType cur.state target).isSome = true
+    by_cases hm : ((cur.dfa S d).matchType cur.state target).isSome = true
     · rw [if_pos hm] at h
       simp only [Option.some.injEq] at h
       subst h
@@ -383,23 +403,7 @@ theorem wrapSearch_sound (S : Schema) (d : Dfa) (q : Nat) (target : TypeId)
       intro a ha
       rcases List.mem_append.1 ha with ha | ha
       · exact hq a (List.mem_cons_of_mem _ ha)
-      · refine foldl_inv (fun acc : List Active × List TypeId => ∀ a, a ∈ acc.1 → WrapInv S d q a)
-          _ _ _ ?_ ?_ a ha
-        · rintro ⟨q', seen'⟩ ⟨t, s⟩ he hacc
-          dsimp only
-          by_cases hc : (S.wrapOk t && !seen'.contains t &&
-              (cur.root || (if cur.root = true then d else S.dfa cur.dfaOf).validEnd s)) = true
-          · rw [if_pos hc]
-            simp only [Bool.and_eq_true] at hc
-            intro a ha
-            rcases List.mem_append.1 ha with ha | ha
-            · exact hacc a ha
-            · simp only [List.mem_singleton] at ha
-              subst ha
-              exact wrapInv_extend S d q hdet cur (hq cur (by simp)) t s he hc.1.1 hc.2
-          · rw [if_neg hc]
-            exact hacc
-        · simp
+      · exact wrapExpand_inv S d q hdet cur (hq cur (by simp)) _ _ (fun e he => he) a ha
 
 theorem findWrapping_sound_aux (S : Schema) (d : Dfa) (q : Nat) (target : TypeId)
     (hdet : ∀ w, (((S.dfa w).edgesOf 0).map (·.1)).Nodup) (chain : List TypeId)
@@ -411,6 +415,6 @@ theorem findWrapping_sound_aux (S : Schema) (d : Dfa) (q : Nat) (target : TypeId
   subst ha
   refine ⟨fun _ => rfl, by simp, ?_⟩
   intro tgt htgt
-  simpa [isWrapChain] using htgt
+  simpa [isWrapChain, Active.dfa] using htgt
 
 end PM
